@@ -50,12 +50,7 @@ def execute(spec):
 
         try:
             visualize(spec[1], show=spec[2], trusted=spec[3], sink=sink)
-            buf = io.StringIO()
-            import contextlib
-
-            with contextlib.redirect_stdout(buf):
-                visualize(spec[1], show=spec[2], trusted=spec[3], use_colors=False)
-            return ("rows", rows, buf.getvalue())
+            return ("rows", rows)
         except Exception as ex:
             return ("raised", type(ex).__name__, str(ex)[:200])
     if kind == "card":
@@ -76,12 +71,16 @@ def execute(spec):
         # a card with the real PrettyTable and the default template, metrics and a table
         from skops.card import Card
 
-        from .card import StubModel
+        import re
 
-        c = Card(StubModel(), **spec[1])
+        from sklearn.linear_model import LinearRegression
+
+        c = Card(LinearRegression(), **spec[1])
         for name, args, kw in spec[2]:
             getattr(c, name)(*args, **kw)
-        return ("card-real", c.render(), list(c._metrics.items()) if hasattr(c, "_metrics") else None)
+        # scikit-learn numbers the elements of its HTML diagram with a process-wide counter: ids, not content
+        text = re.sub(r"sk-(estimator|container)-id-\d+", r"sk-\1-id-N", c.render())
+        return ("card-real", text, list(c._metrics.items()) if hasattr(c, "_metrics") else None)
     raise ValueError(kind)
 
 
